@@ -77,6 +77,18 @@ class Topo8:
         return out
 
 
+def root_paths(pids):
+    """one root-to-tip node sequence per childless node"""
+    T8 = Topo8(pids)
+    out = []
+    for tip in T8.tips():
+        q = [tip]
+        while T8.pids[q[-1]] != -1:
+            q.append(T8.pids[q[-1]])
+        out.append(q[::-1])
+    return out
+
+
 def rooted_trees8(n):
     """every parent vector of a labelled tree on 0..n-1 with root 0 (any numbering of the other nodes, parents need not come first)"""
     import itertools
@@ -1342,7 +1354,8 @@ def register_whole(R):
             if kind == "ends":
                 voc += [ctx.nkids, col(t, "id").arr]
             # THE postcondition, under its own name and kind: when the steps no longer carry it, the clause of the property fails (not a proof step)
-            X.prove_in_vocabulary(E, f"Tree.get_branches/post/{which}", E.ghost[("gb-post", which)], voc, kind="postcondition", note="from the proof steps")
+            # (simplified as the engine simplifies a clause: the clause's own obligation then finds the very same term among its hypotheses)
+            X.prove_in_vocabulary(E, f"Tree.get_branches/post/{which}", z3.simplify(E.ghost[("gb-post", which)]), voc, kind="postcondition", note="from the proof steps")
 
         return f
 
@@ -1384,6 +1397,8 @@ def register_whole(R):
         S.assume(z3.And(x.z >= 0, x.z < n))
         S.assume(z3.ForAll([i], z3.Implies(z3.And(i >= 0, i < n), ht8(i) >= 0), patterns=[ht8(i)]))
         S.assume(z3.ForAll([i], z3.Implies(z3.And(i > 0, i < n), ht8(sel(P, i)) > ht8(i)), patterns=[ht8(sel(P, i))]))
+        S.eng.assumptions.add("ghost witnesses of a well-formed input tree (preconditions): depth(0) = 0, depth(i) = depth(parent of i) + 1 (every node reaches the root); "
+                              "ht8(i) >= 0, ht8(parent of i) > ht8(i) (a height function: every finite tree has one, tools/xcheck_c08_models.py)")
         return dict(self=node_obj(S, t, idx=x))
 
     def nbw_vocab(E, v, name="ns"):
@@ -1698,18 +1713,58 @@ def register_branch_tree(R):
     R.add(f"{TT}:ToBranchTree.__call__", prop="C08", variants={nm: tb_setup(p) for nm, p in FIXED_SHAPES.items()},
           ensures=[(w, bt_post(w, "x")) for w in BTP], notes=NOTE, options=dict(OPTS, inline_calls=INLINE8))
 
-    # ================================================================ ToLongestPath.__call__ on fixed topologies
-    # "There is exactly one root-to-tip path per tip": the transform returns one of these paths, one of maximal length, with the original points.
-    def root_paths(pids):
-        T8 = Topo8(pids)
+    # ================================================================ Tree.get_branches / get_paths / get_tips / get_furcations on the fixed topologies
+    # The whole-function contracts above hold for trees of any size; here the same functions are EXECUTED on every small labelled tree (the
+    # quantifier's "roots with one, two or many children, single-node trees and unbranched chains" by name) and compared with the textbook
+    # decomposition, so that a failure comes with the shape it fails on.
+    def seqs_of(res, t, cls):
+        """node sequences of a concrete list of Path/Branch objects of class `cls` attached to t, else None"""
+        if not (isinstance(res, PList) and res.items is not None):
+            return None
         out = []
-        for tip in T8.tips():
-            q = [tip]
-            while pids[q[-1]] != -1:
-                q.append(pids[q[-1]])
-            out.append(q[::-1])
+        for b in res.items:
+            if not (isinstance(b, Obj) and b.cls is cls and b.fields.get("attach") is t and ints(b.fields.get("idx")) is not None):
+                return None
+            out.append(ints(b.fields["idx"]))
         return out
 
+    def handles_of(res, t):
+        from swcgeom.core.tree import Tree
+
+        if not (isinstance(res, PList) and res.items is not None and all(isinstance(h, Obj) and h.cls is Tree.Node and h.fields.get("attach") is t and isinstance(h.fields.get("idx"), int) for h in res.items)):
+            return None
+        return [h.fields["idx"] for h in res.items]
+
+    def fx_post(which):
+        def f(E, v, o):
+            from swcgeom.core.tree import Tree
+
+            t, res = v["self"], v["result"]
+            T8 = Topo8(ints(col(t, "pid")))
+            if which == "branches":
+                got = seqs_of(res, t, Tree.Branch)
+                return got is not None and sorted(got) == sorted(T8.branches())
+            if which == "paths":
+                got = seqs_of(res, t, Tree.Path)
+                return got is not None and sorted(got) == sorted(root_paths(T8.pids))
+            got = handles_of(res, t)
+            return got is not None and sorted(got) == (T8.tips() if which == "tips" else T8.furcations())
+
+        return f
+
+    def fx_setup(pids):
+        return lambda S: dict(self=fixed_topology_tree(S, pids))
+
+    FXN = "fixed concrete topologies (every labelled rooted tree of 1-4 nodes in any numbering, and 8 larger shapes); the traversal is executed from its current source; the input tree is frozen"
+    for meth, which, lab in (("get_branches", "branches", "exactly-the-maximal-chains-from-the-root-or-a-furcation-through-pass-through-nodes-to-a-furcation-or-tip-each-once"),
+                             ("get_paths", "paths", "exactly-one-root-to-tip-path-per-tip"),
+                             ("get_tips", "tips", "exactly-the-childless-nodes-each-once"),
+                             ("get_furcations", "furcations", "exactly-the-nodes-with-two-or-more-children-each-once")):
+        R.add(f"{TREE}:Tree.{meth}", prop="C08", variants={nm: fx_setup(p) for nm, p in FIXED_SHAPES.items()},
+              ensures=[(lab, fx_post(which))], notes=FXN, options=dict(OPTS, inline_calls=INLINE8))
+
+    # ================================================================ ToLongestPath.__call__ on fixed topologies
+    # "There is exactly one root-to-tip path per tip": the transform returns one of these paths, one of maximal length, with the original points.
     def lp_setup(pids, detach):
         def f(S):
             from swcgeom.transforms.tree import ToLongestPath
